@@ -770,21 +770,28 @@ class Node:
         if new_parent is self or new_parent.is_descendant_of(self):
             raise ValueError(f"Cannot move {self} below itself: {new_parent}")
 
+        if before is True:
+            before = 0  # prepend
+
+        # Validate `before` first: we must not detach the node and then fail
+        if isinstance(before, Node) and (
+            before is self or before._parent is not new_parent
+        ):
+            raise ValueError(
+                f"`before=node` ({before}) "
+                f"must be another child of target node ({new_parent})"
+            )
+
         siblings = self._parent._children
         del siblings[_index_of(siblings, self)]  # type: ignore
         if not self._parent._children:  # store None instead of `[]`
             self._parent._children = None
         self._parent = new_parent
 
-        if before is True:
-            before = 0  # prepend
-
         target_siblings = new_parent._children
         if target_siblings is None:
-            assert before in (None, True, False, 0), before
             new_parent._children = [self]  # type: ignore
         elif isinstance(before, Node):
-            assert before._parent is new_parent, before
             idx = _index_of(target_siblings, before)  # raise ValueError if not found
             target_siblings.insert(idx, self)
         elif isinstance(before, int):
